@@ -704,6 +704,12 @@ class Visitor(ast.NodeVisitor):
 
             if result is PLACEHOLDER:
                 return PLACEHOLDER
+
+            if isinstance(result, FirstExceptionInAll):
+                # The first exception is what we show for this node, but the enclosing expression must be
+                # re-computed with the value which Python computed.
+                self.recomputed_values[node] = result
+                return False
         else:
             args = self._visit_elements(nodes=node.args)
 
